@@ -255,6 +255,13 @@ func runLiveOnce(seed int64) *liveOutcome {
 func runLive(prop string) func(ctx *Ctx) *Result {
 	return func(ctx *Ctx) *Result {
 		res := newResult()
+		var watchdogNotes []string
+		defer func() {
+			// inconclusive only if the watchdog took most of the runs away
+			if res.Stats["live_runs_stopped_by_watchdog"] > res.Stats["live_runs_quiescent"] {
+				res.Inconclusive = append(res.Inconclusive, watchdogNotes...)
+			}
+		}()
 		for i := ctx.Lo; i < ctx.hi(); i++ {
 			if !ctx.mine(i) {
 				continue
@@ -268,7 +275,9 @@ func runLive(prop string) func(ctx *Ctx) *Result {
 			res.sig(fmt.Sprint(o.Trace))
 			res.sample(1, map[string]interface{}{"live_run_trace": tail(o.Trace, 12), "controller_calls": o.Calls, "reconciles": o.Reconciles})
 			if o.Inconclusive != "" {
-				res.Inconclusive = append(res.Inconclusive, fmt.Sprintf("live case %d: %s", i, o.Inconclusive))
+				// the wall-clock watchdog fired (loaded machine): no verdict from this run, neither way
+				res.Stats["live_runs_stopped_by_watchdog"]++
+				watchdogNotes = append(watchdogNotes, fmt.Sprintf("live case %d: %s", i, o.Inconclusive))
 				continue
 			}
 			res.Stats["live_runs_quiescent"]++
